@@ -260,6 +260,15 @@ func runC06(tb ev.TB, p c06Prog) ev.Result {
 	if err != nil {
 		tb.Fatalf("harness: %v", err)
 	}
+	// a twin of the destination (same entries, heads, clock, policy, options) that will NOT see the merge under test:
+	// if that merge is rejected, destination and twin must answer every later operation alike (see the end of the case)
+	twin, err := world.NewLog(w.Store.API(), dstRep.Writer, sim.LogID, w.Order, w.IO, &ipfslog.LogOptions{
+		Entries: entry.NewOrderedMapFromEntries(dstEntries.Slice()), Heads: append([]iface.IPFSLogEntry(nil), dstHeads...), AccessController: pol, Concurrency: uint(p.Conc),
+		Clock: entry.NewLamportClock(dstRep.Log.Clock.GetID(), dstRep.Log.Clock.GetTime()),
+	})
+	if err != nil {
+		tb.Fatalf("harness: %v", err)
+	}
 	// source log object with corrupted copies (children keep pointing at the original hashes)
 	var srcEntries []iface.IPFSLogEntry
 	other := ""
@@ -480,6 +489,7 @@ func runC06(tb ev.TB, p c06Prog) ev.Result {
 		pol.denyAll = true
 		b := takeSnap(dst)
 		_, aerr := dst.Append(ctx, []byte("denied"), nil)
+		_, _ = twin.Append(ctx, []byte("denied"), nil) // the twin lives through everything but the merge under test
 		pol.denyAll = false
 		if aerr == nil {
 			tb.Fatalf("append denied by the access controller returned no error")
@@ -489,6 +499,46 @@ func runC06(tb ev.TB, p c06Prog) ev.Result {
 		if d := b.diff(a); d != "" {
 			tb.Fatalf("denied append changed the log: %s", d)
 		}
+	}
+	// (d) "observably unchanged" includes what the log does next: after a rejected merge the destination and its twin
+	// (which never saw that merge) go through the same further operations - a merge of the honest source, an append, the
+	// same merge again - and must agree on every outcome and every snapshot
+	if len(invalid) > 0 && jerr != nil {
+		classes = append(classes, "rejected-then-continued")
+		step := func(what string, op func(l *ipfslog.IPFSLog) (string, error)) {
+			rd, ed := op(dst)
+			rt, et := op(twin)
+			if (ed == nil) != (et == nil) {
+				tb.Fatalf("after a rejected merge, %s: the log answers error=%v, a log that never saw the rejected merge answers error=%v", what, ed, et)
+			}
+			if rd != rt {
+				tb.Fatalf("after a rejected merge, %s gives %s, on a log that never saw the rejected merge %s", what, rd, rt)
+			}
+			if d := takeSnap(twin).diff(takeSnap(dst)); d != "" {
+				tb.Fatalf("after a rejected merge and %s the log differs from one that never saw the rejected merge: %s", what, d)
+			}
+		}
+		honest := func(l *ipfslog.IPFSLog) (string, error) { _, err := l.Join(src.Log, -1); return "", err }
+		// first a merge that brings nothing new (a peer holding exactly what the destination held): whatever the
+		// rejected candidates pointed to must still be where it was
+		peer, err := world.NewLog(w.Store.API(), dstRep.Writer, sim.LogID, w.Order, w.IO, &ipfslog.LogOptions{
+			Entries: entry.NewOrderedMapFromEntries(dstEntries.Slice()), Heads: append([]iface.IPFSLogEntry(nil), dstHeads...)})
+		if err != nil {
+			tb.Fatalf("harness: %v", err)
+		}
+		step("a merge of a peer that holds what the log held", func(l *ipfslog.IPFSLog) (string, error) { _, err := l.Join(peer, -1); return "", err })
+		if d := before.diff(takeSnap(dst)); d != "" && !p.Deny {
+			tb.Fatalf("a rejected merge followed by a merge that brings nothing new changed the log: %s", d)
+		}
+		step("a merge of the honest source", honest)
+		step("an append", func(l *ipfslog.IPFSLog) (string, error) {
+			e, err := l.Append(ctx, []byte("after"), &ipfslog.AppendOptions{PointerCount: 1 + p.PolArg%4})
+			if err != nil {
+				return "", err
+			}
+			return fmt.Sprintf("next=%v time=%d", world.Shorts(world.SortedCopy(world.CidHashes(e.GetNext()))), e.GetClock().GetTime()), nil
+		})
+		step("a second merge of the honest source", honest)
 	}
 	nt := invalidNonHead && len(cands) >= 2
 	return ev.Result{NonTrivial: nt, Classes: classes}
